@@ -5,7 +5,7 @@ push/pop bookkeeping).  Property theorems are in Props/C19.lean.
 import ParamVerif.TimeDyn.Model
 
 namespace ParamVerif.TimeDyn
-variable {H V : Type}
+variable {H S V : Type}
 
 /-! ### list helpers -/
 
@@ -24,13 +24,13 @@ theorem replicate_push {α} (n : Nat) (e : α) (s : List α) :
 
 /-! ### frame lemmas: what a single operation cannot touch -/
 
-theorem produce_frame (env : Env H V) (g : Gen V) (now : Int) :
+theorem produce_frame (env : Env H S V) (g : Gen S V) (now : Int) :
     (g.produce env now).2.saved = g.saved ∧ (g.produce env now).2.kind = g.kind ∧
     (g.produce env now).2.last = g.last ∧ (g.produce env now).2.lastTime = g.lastTime := by
   unfold Gen.produce
   cases g.kind <;> simp
 
-theorem produceValue_saved (env : Env H V) (d : Bool) (now : Int) (g : Gen V) (f : Bool) :
+theorem produceValue_saved (env : Env H S V) (d : Bool) (now : Int) (g : Gen S V) (f : Bool) :
     (produceValue env d now g f).2.saved = g.saved ∧ (produceValue env d now g f).2.kind = g.kind := by
   unfold produceValue
   split
@@ -39,7 +39,7 @@ theorem produceValue_saved (env : Env H V) (d : Bool) (now : Int) (g : Gen V) (f
     · simp [produce_frame]
     · simp
 
-theorem readGen_saved (env : Env H V) (d : Bool) (now : Int) (pt : PType) (g : Gen V) (f : Bool) :
+theorem readGen_saved (env : Env H S V) (d : Bool) (now : Int) (pt : PType) (g : Gen S V) (f : Bool) :
     (readGen env d now pt g f).2.saved = g.saved ∧ (readGen env d now pt g f).2.kind = g.kind := by
   unfold readGen
   split
@@ -47,14 +47,14 @@ theorem readGen_saved (env : Env H V) (d : Bool) (now : Int) (pt : PType) (g : G
   · exact produceValue_saved env d now g f
 
 /-- a generation that raises leaves the cached value and time untouched -/
-theorem readGen_raised (env : Env H V) (d : Bool) (now : Int) (pt : PType) (g : Gen V) (f : Bool) (e : Exc)
+theorem readGen_raised (env : Env H S V) (d : Bool) (now : Int) (pt : PType) (g : Gen S V) (f : Bool) (e : Exc)
     (h : g.failsNow = some e) (hc : willCall d now g f = true) :
     (readGen env d now pt g f).1 = .raised e ∧ (readGen env d now pt g f).2.last = g.last ∧
     (readGen env d now pt g f).2.lastTime = g.lastTime ∧ (readGen env d now pt g f).2.saved = g.saved := by
   unfold readGen
   simp [hc, h]
 
-theorem readGen_nofail (env : Env H V) (d : Bool) (now : Int) (pt : PType) (g : Gen V) (f : Bool)
+theorem readGen_nofail (env : Env H S V) (d : Bool) (now : Int) (pt : PType) (g : Gen S V) (f : Bool)
     (h : (if willCall d now g f then g.failsNow else none) = none) :
     readGen env d now pt g f =
       ((if f then .ok (.val (produceValue env d now g f).1) else validateRead pt (produceValue env d now g f).1),
@@ -62,18 +62,30 @@ theorem readGen_nofail (env : Env H V) (d : Bool) (now : Int) (pt : PType) (g : 
   unfold readGen
   rw [h]
 
-theorem readSlot_frame (env : Env H V) (w : World V) (tg : Target) (p : Nat) (f : Bool) :
-    (readSlot env w tg p f).2.clock = w.clock ∧ (readSlot env w tg p f).2.dynTD = w.dynTD ∧
+theorem readSlot_frame (env : Env H S V) (w : World S V) (tg : Target) (p : Nat) (f : Bool) :
+    ((readSlot env w tg p f).2.clock = w.clock ∨ (readSlot env w tg p f).2.clock = w.clock.touch) ∧
+    (readSlot env w tg p f).2.dynTD = w.dynTD ∧
     (readSlot env w tg p f).2.defaults = w.defaults ∧ (readSlot env w tg p f).2.insts = w.insts ∧
     (readSlot env w tg p f).2.ptypes = w.ptypes ∧
     (readSlot env w tg p f).2.gens.length = w.gens.length := by
   unfold readSlot
   split
   · simp
-  · split <;> simp
+  · split
+    · simp
+    · simp only [List.length_set, and_self, and_true]
+      split <;> simp
   · simp
 
-theorem storeSlot_frame (w : World V) (tg : Target) (p : Nat) (slot : Slot) (hp : List (Gen V)) :
+/-- a read never moves the clock: time, timestep, until and the context stack are as before -/
+theorem readSlot_clock (env : Env H S V) (w : World S V) (tg : Target) (p : Nat) (f : Bool) :
+    (readSlot env w tg p f).2.clock.time = w.clock.time ∧
+    (readSlot env w tg p f).2.clock.timestep = w.clock.timestep ∧
+    (readSlot env w tg p f).2.clock.untl = w.clock.untl ∧
+    (readSlot env w tg p f).2.clock.pushed = w.clock.pushed := by
+  rcases (readSlot_frame env w tg p f).1 with h | h <;> rw [h] <;> simp [Clock.touch]
+
+theorem storeSlot_frame (w : World S V) (tg : Target) (p : Nat) (slot : Slot) (hp : List (Gen S V)) :
     (storeSlot w tg p slot hp).2.clock = w.clock ∧ (storeSlot w tg p slot hp).2.dynTD = w.dynTD ∧
     ((storeSlot w tg p slot hp).2.gens = hp ∨ (storeSlot w tg p slot hp).2.gens = w.gens) := by
   unfold storeSlot
@@ -81,7 +93,7 @@ theorem storeSlot_frame (w : World V) (tg : Target) (p : Nat) (slot : Slot) (hp 
   · simp
   · split <;> simp
 
-theorem assignSlot_frame (w : World V) (tg : Target) (p : Nat) (src : Src) :
+theorem assignSlot_frame (w : World S V) (tg : Target) (p : Nat) (src : Src) :
     (assignSlot w tg p src).2.clock = w.clock ∧ (assignSlot w tg p src).2.dynTD = w.dynTD := by
   unfold assignSlot
   split
@@ -90,7 +102,7 @@ theorem assignSlot_frame (w : World V) (tg : Target) (p : Nat) (src : Src) :
     · simp
     · exact ⟨(storeSlot_frame ..).1, (storeSlot_frame ..).2.1⟩
 
-theorem exitCtx_frame (rw : Res V × World V) :
+theorem exitCtx_frame (rw : Res V × World S V) :
     (exitCtx rw).2.dynTD = rw.2.dynTD ∧ (exitCtx rw).2.gens = rw.2.gens ∧
     (exitCtx rw).2.defaults = rw.2.defaults ∧ (exitCtx rw).2.insts = rw.2.insts ∧
     (exitCtx rw).2.ptypes = rw.2.ptypes := by
@@ -99,7 +111,7 @@ theorem exitCtx_frame (rw : Res V × World V) :
   · simp
   · split <;> simp
 
-theorem exitCtx_clock (rw : Res V × World V) (t s : Int) (u : Option Int) (rest : List (Int × Int × Option Int))
+theorem exitCtx_clock (rw : Res V × World S V) (t s : Int) (u : Option Int) (rest : List (Int × Int × Option Int))
     (h : rw.2.clock.pushed = (t, s, u) :: rest) :
     (exitCtx rw).2.clock = { time := t, timestep := s, untl := u, pushed := rest, inContext := some (!rest.isEmpty) } ∧
     (exitCtx rw).1 = (match rw.1 with
@@ -119,14 +131,14 @@ theorem exit_enter (c : Clock) :
   simp [Clock.enter, Clock.exit]
 
 mutual
-theorem runOp_pushed (env : Env H V) : ∀ (o : Op) (w : World V),
+theorem runOp_pushed (env : Env H S V) : ∀ (o : Op) (w : World S V),
     (runOp env o w).2.clock.pushed = w.clock.pushed ∧ (runOp env o w).2.dynTD = w.dynTD
   | .setTime _, _ => by simp [runOp]
   | .advance _, _ => by simp [runOp]
   | .setStep _, _ => by simp [runOp]
   | .setUntil _, _ => by simp [runOp]
-  | .read tg p, w => by simp [runOp, readSlot_frame]
-  | .force tg p, w => by simp [runOp, readSlot_frame]
+  | .read tg p, w => by simp [runOp, readSlot_frame, readSlot_clock]
+  | .force tg p, w => by simp [runOp, readSlot_frame, readSlot_clock]
   | .inspect _ _, _ => by simp [runOp]
   | .push i, w => by simp only [runOp]; split <;> simp
   | .pop i, w => by simp only [runOp]; split <;> simp
@@ -141,7 +153,7 @@ theorem runOp_pushed (env : Env H V) : ∀ (o : Op) (w : World V),
       rw [ih.1]; rfl
     have hc := (exitCtx_clock _ _ _ _ _ hp).1
     exact ⟨by rw [hc], by rw [(exitCtx_frame _).1, ih.2]⟩
-theorem runOps_pushed (env : Env H V) : ∀ (os : List Op) (w : World V),
+theorem runOps_pushed (env : Env H S V) : ∀ (os : List Op) (w : World S V),
     (runOps env os w).2.clock.pushed = w.clock.pushed ∧ (runOps env os w).2.dynTD = w.dynTD
   | [], _ => by simp [runOps]
   | o :: os, w => by
@@ -157,74 +169,98 @@ theorem runOps_pushed (env : Env H V) : ∀ (os : List Op) (w : World V),
       exact h1
 end
 
-/-! ### heap coherence: a cached pair of a time-dependent generator is either the placeholder
-`(None, _NO_TIME)` or `(gen name seed t, t)` -/
+/-! ### heap coherence: a cached pair of a generator whose value is a function `f` of time is either
+the placeholder `(None, _NO_TIME)` or `(f t, t)` -/
 
-def CacheOK (env : Env H V) (n : String) (s : Int) (c : Option V × Option Int) : Prop :=
-  (∃ t, c.2 = some t ∧ c.1 = some (env.tdVal n s t)) ∨ (c.1 = none ∧ c.2 = none)
+/-- the function of time a generator computes, if it is one: `t ↦ draw (reseed (hash name seed t))`
+for a time-dependent random distribution, the same at the sample time for a `TimeSampledFn` -/
+def GenKind.timeFn (env : Env H S V) : GenKind → Option (Int → V)
+  | .td n s => some (env.tdVal n s)
+  | .sampled n s p o => some (fun t => env.tdVal n s (sampleTime t p o))
+  | .stream _ => none
 
-def GenOK (env : Env H V) (g : Gen V) : Prop :=
-  match g.kind with
-  | .td n s => CacheOK env n s (g.last, g.lastTime) ∧ ∀ c ∈ g.saved, CacheOK env n s c
-  | .stream _ => True
+def CacheOK (f : Int → V) (c : Option V × Option Int) : Prop :=
+  (∃ t, c.2 = some t ∧ c.1 = some (f t)) ∨ (c.1 = none ∧ c.2 = none)
 
-def HeapOK (env : Env H V) (hp : List (Gen V)) : Prop := ∀ g ∈ hp, GenOK env g
+/-- `GenOK` on the four fields it depends on -/
+def GenOK' (env : Env H S V) (k : GenKind) (l : Option V) (t : Option Int) (sv : List (Option V × Option Int)) : Prop :=
+  match k.timeFn env with
+  | some f => CacheOK f (l, t) ∧ ∀ c ∈ sv, CacheOK f c
+  | none => True
 
-theorem GenOK_fresh (env : Env H V) (k : GenKind) (f : Option (Nat × Exc) := none) :
-    GenOK env (Gen.fresh k f : Gen V) := by
-  unfold GenOK Gen.fresh CacheOK
-  cases k <;> simp
+def GenOK (env : Env H S V) (g : Gen S V) : Prop := GenOK' env g.kind g.last g.lastTime g.saved
 
-theorem GenOK_reinit (env : Env H V) (g : Gen V) : GenOK env g.reinit := by
-  unfold GenOK Gen.reinit CacheOK
-  cases h : g.kind <;> simp
+def HeapOK (env : Env H S V) (hp : List (Gen S V)) : Prop := ∀ g ∈ hp, GenOK env g
 
-theorem GenOK_push (env : Env H V) (g : Gen V) (h : GenOK env g) : GenOK env g.push := by
-  unfold GenOK Gen.push at *
-  cases hk : g.kind <;> simp only [hk] at h ⊢
-  refine ⟨h.1, ?_⟩
-  intro c hc
-  simp only [List.mem_cons] at hc
-  rcases hc with rfl | hc
-  · exact h.1
-  · exact h.2 c hc
+theorem GenOK'_placeholder (env : Env H S V) (k : GenKind) : GenOK' env k none none [] := by
+  unfold GenOK' CacheOK
+  split <;> simp
 
-theorem produce_val_td (env : Env H V) (g : Gen V) (now : Int) (n : String) (s : Int)
-    (hk : g.kind = .td n s) : (g.produce env now).1 = env.tdVal n s now := by
+theorem GenOK_fresh (env : Env H S V) (k : GenKind) (f : Option (Nat × Exc) := none) :
+    GenOK env (Gen.fresh k f : Gen S V) := GenOK'_placeholder env k
+
+theorem GenOK_reinit (env : Env H S V) (g : Gen S V) : GenOK env g.reinit := GenOK'_placeholder env g.kind
+
+theorem GenOK_push (env : Env H S V) (g : Gen S V) (h : GenOK env g) : GenOK env g.push := by
+  show GenOK' env g.kind g.last g.lastTime ((g.last, g.lastTime) :: g.saved)
+  unfold GenOK GenOK' at *
+  split at h
+  · rename_i f hf
+    try simp only [hf]
+    refine ⟨h.1, ?_⟩
+    intro c hc
+    simp only [List.mem_cons] at hc
+    rcases hc with rfl | hc
+    · exact h.1
+    · exact h.2 c hc
+  · rename_i hf
+    try simp only [hf]
+    try trivial
+
+theorem produce_val (env : Env H S V) (g : Gen S V) (now : Int) (f : Int → V)
+    (hk : g.kind.timeFn env = some f) : (g.produce env now).1 = f now := by
   unfold Gen.produce
-  simp [hk]
+  cases hg : g.kind <;> simp only [hg, GenKind.timeFn, Option.some.injEq] at hk ⊢
+  · rw [← hk]; rfl
+  · rw [← hk]; rfl
+  · simp at hk
 
-theorem GenOK_produce (env : Env H V) (now : Int) (g : Gen V) (f : Bool) (h : GenOK env g) :
+theorem produce_val_td (env : Env H S V) (g : Gen S V) (now : Int) (n : String) (s : Int)
+    (hk : g.kind = .td n s) : (g.produce env now).1 = env.tdVal n s now :=
+  produce_val env g now _ (by rw [hk]; rfl)
+
+theorem GenOK_produce (env : Env H S V) (now : Int) (g : Gen S V) (f : Bool) (h : GenOK env g) :
     GenOK env (produceValue env true now g f).2 := by
   unfold produceValue
   simp only [Bool.not_true, Bool.false_eq_true, if_false]
   split
   · have pf := produce_frame env g now
-    unfold GenOK at *
-    simp only [pf.2.1, pf.1]
-    cases hk : g.kind with
-    | stream sid => trivial
-    | td n s =>
-      simp only [hk] at h ⊢
-      exact ⟨Or.inl ⟨now, rfl, by simp [produce_val_td env g now n s hk]⟩, h.2⟩
+    show GenOK' env (g.produce env now).2.kind (some (g.produce env now).1) (some now) (g.produce env now).2.saved
+    rw [pf.2.1, pf.1]
+    unfold GenOK GenOK' at *
+    split at h
+    · rename_i fn hf
+      try simp only [hf]
+      exact ⟨Or.inl ⟨now, rfl, by simp [produce_val env g now fn hf]⟩, h.2⟩
+    · rename_i hf
+      try simp only [hf]
   · exact h
 
-theorem GenOK_readGen (env : Env H V) (now : Int) (pt : PType) (g : Gen V) (f : Bool) (h : GenOK env g) :
+theorem GenOK_readGen (env : Env H S V) (now : Int) (pt : PType) (g : Gen S V) (f : Bool) (h : GenOK env g) :
     GenOK env (readGen env true now pt g f).2 := by
   unfold readGen
   split
-  · unfold GenOK at *
-    exact h
+  · exact h
   · exact GenOK_produce env now g f h
 
-theorem HeapOK_set (env : Env H V) (hp : List (Gen V)) (i : Nat) (g : Gen V)
+theorem HeapOK_set (env : Env H S V) (hp : List (Gen S V)) (i : Nat) (g : Gen S V)
     (h : HeapOK env hp) (hg : GenOK env g) : HeapOK env (hp.set i g) := by
   intro x hx
   rcases List.mem_or_eq_of_mem_set hx with h' | h'
   · exact h x h'
   · exact h' ▸ hg
 
-theorem HeapOK_append (env : Env H V) (hp : List (Gen V)) (g : Gen V)
+theorem HeapOK_append (env : Env H S V) (hp : List (Gen S V)) (g : Gen S V)
     (h : HeapOK env hp) (hg : GenOK env g) : HeapOK env (hp ++ [g]) := by
   intro x hx
   simp only [List.mem_append, List.mem_singleton] at hx
@@ -232,11 +268,11 @@ theorem HeapOK_append (env : Env H V) (hp : List (Gen V)) (g : Gen V)
   · exact h x h'
   · exact h' ▸ hg
 
-theorem HeapOK_get (env : Env H V) (hp : List (Gen V)) (i : Nat) (g : Gen V)
+theorem HeapOK_get (env : Env H S V) (hp : List (Gen S V)) (i : Nat) (g : Gen S V)
     (h : HeapOK env hp) (hg : hp[i]? = some g) : GenOK env g :=
   h g (List.mem_of_getElem? hg)
 
-theorem pushGens_ok (env : Env H V) : ∀ (gs : List Nat) (hp : List (Gen V)),
+theorem pushGens_ok (env : Env H S V) : ∀ (gs : List Nat) (hp : List (Gen S V)),
     HeapOK env hp → HeapOK env (pushGens gs hp)
   | [], _, h => h
   | g :: gs, hp, h => by
@@ -246,15 +282,21 @@ theorem pushGens_ok (env : Env H V) : ∀ (gs : List Nat) (hp : List (Gen V)),
     · rename_i x hx
       exact pushGens_ok env gs _ (HeapOK_set env hp g _ h (GenOK_push env x (HeapOK_get env hp g x h hx)))
 
-theorem GenOK_pop (env : Env H V) (x : Gen V) (l : Option V) (t : Option Int) (rest : List (Option V × Option Int))
+theorem GenOK_pop (env : Env H S V) (x : Gen S V) (l : Option V) (t : Option Int) (rest : List (Option V × Option Int))
     (h : GenOK env x) (hs : x.saved = (l, t) :: rest) :
     GenOK env { x with last := l, lastTime := t, saved := rest } := by
-  unfold GenOK at *
-  cases hk : x.kind <;> simp only [hk] at h ⊢
+  show GenOK' env x.kind l t rest
+  unfold GenOK GenOK' at *
   rw [hs] at h
-  exact ⟨h.2 (l, t) (by simp), fun c hc => h.2 c (by simp [hc])⟩
+  split at h
+  · rename_i f hf
+    try simp only [hf]
+    exact ⟨h.2 (l, t) (by simp), fun c hc => h.2 c (by simp [hc])⟩
+  · rename_i hf
+    try simp only [hf]
+    try trivial
 
-theorem popGens_ok (env : Env H V) : ∀ (gs : List Nat) (hp : List (Gen V)),
+theorem popGens_ok (env : Env H S V) : ∀ (gs : List Nat) (hp : List (Gen S V)),
     HeapOK env hp → HeapOK env (popGens gs hp).2
   | [], _, h => h
   | g :: gs, hp, h => by
@@ -268,7 +310,7 @@ theorem popGens_ok (env : Env H V) : ∀ (gs : List Nat) (hp : List (Gen V)),
         exact popGens_ok env gs _ (HeapOK_set env hp g _ h
           (GenOK_pop env x l t rest (HeapOK_get env hp g x h hx) hs))
 
-theorem instantiate_ok (env : Env H V) : ∀ (ss : List Slot) (hp : List (Gen V)),
+theorem instantiate_ok (env : Env H S V) : ∀ (ss : List Slot) (hp : List (Gen S V)),
     HeapOK env hp → HeapOK env (instantiate ss hp).2
   | [], _, h => h
   | s :: ss, hp, h => by
@@ -281,7 +323,7 @@ theorem instantiate_ok (env : Env H V) : ∀ (ss : List Slot) (hp : List (Gen V)
       | none => exact instantiate_ok env ss hp h
       | some x => exact instantiate_ok env ss _ (HeapOK_append env hp x h (HeapOK_get env hp g x h hx))
 
-theorem readSlot_ok (env : Env H V) (w : World V) (tg : Target) (p : Nat) (f : Bool)
+theorem readSlot_ok (env : Env H S V) (w : World S V) (tg : Target) (p : Nat) (f : Bool)
     (hd : w.dynTD = true) (h : HeapOK env w.gens) : HeapOK env (readSlot env w tg p f).2.gens := by
   unfold readSlot
   split
@@ -293,11 +335,15 @@ theorem readSlot_ok (env : Env H V) (w : World V) (tg : Target) (p : Nat) (f : B
       exact HeapOK_set env _ _ _ h (GenOK_readGen env _ _ g f (HeapOK_get env _ _ g h hg))
   · exact h
 
-theorem srcSlot_ok (env : Env H V) (w : World V) (src : Src) (r : Slot × List (Gen V))
+theorem srcSlot_ok (env : Env H S V) (w : World S V) (src : Src) (r : Slot × List (Gen S V))
     (h : HeapOK env w.gens) (hr : srcSlot w src = some r) : HeapOK env r.2 := by
   unfold srcSlot at hr
   split at hr
   · simp only [Option.some.injEq] at hr; subst hr; exact h
+  · split at hr
+    · simp only [Option.some.injEq] at hr; subst hr
+      exact HeapOK_append env _ _ h (GenOK_fresh env _ _)
+    · simp at hr
   · split at hr
     · simp only [Option.some.injEq] at hr; subst hr
       exact HeapOK_append env _ _ h (GenOK_fresh env _ _)
@@ -309,7 +355,7 @@ theorem srcSlot_ok (env : Env H V) (w : World V) (src : Src) (r : Slot × List (
     · simp only [Option.some.injEq] at hr; subst hr
       exact HeapOK_set env _ _ _ h (GenOK_reinit env _)
 
-theorem assignSlot_ok (env : Env H V) (w : World V) (tg : Target) (p : Nat) (src : Src)
+theorem assignSlot_ok (env : Env H S V) (w : World S V) (tg : Target) (p : Nat) (src : Src)
     (h : HeapOK env w.gens) : HeapOK env (assignSlot w tg p src).2.gens := by
   unfold assignSlot
   split
@@ -322,7 +368,7 @@ theorem assignSlot_ok (env : Env H V) (w : World V) (tg : Target) (p : Nat) (src
       · rw [e]; exact h
 
 mutual
-theorem runOp_heapOK (env : Env H V) : ∀ (o : Op) (w : World V),
+theorem runOp_heapOK (env : Env H S V) : ∀ (o : Op) (w : World S V),
     w.dynTD = true → HeapOK env w.gens → HeapOK env (runOp env o w).2.gens
   | .setTime _, _, _, h => by simpa [runOp] using h
   | .advance _, _, _, h => by simpa [runOp] using h
@@ -347,7 +393,7 @@ theorem runOp_heapOK (env : Env H V) : ∀ (o : Op) (w : World V),
     simp only [runOp]
     rw [(exitCtx_frame _).2.1]
     exact ih
-theorem runOps_heapOK (env : Env H V) : ∀ (os : List Op) (w : World V),
+theorem runOps_heapOK (env : Env H S V) : ∀ (os : List Op) (w : World S V),
     w.dynTD = true → HeapOK env w.gens → HeapOK env (runOps env os w).2.gens
   | [], _, _, h => by simpa [runOps] using h
   | o :: os, w, hd, h => by
@@ -365,10 +411,10 @@ end
 
 /-! ### push / pop bookkeeping, per heap index -/
 
-def Gen.pushN (n : Nat) (g : Gen V) : Gen V :=
+def Gen.pushN (n : Nat) (g : Gen S V) : Gen S V :=
   { g with saved := List.replicate n (g.last, g.lastTime) ++ g.saved }
 
-theorem pushGens_get : ∀ (gs : List Nat) (hp : List (Gen V)) (x : Nat),
+theorem pushGens_get : ∀ (gs : List Nat) (hp : List (Gen S V)) (x : Nat),
     (pushGens gs hp)[x]? = (hp[x]?).map (Gen.pushN (gs.count x))
   | [], hp, x => by
     simp only [pushGens, List.count_nil]
@@ -395,11 +441,11 @@ theorem pushGens_get : ∀ (gs : List Nat) (hp : List (Gen V)) (x : Nat),
       · simp [List.getElem?_set_ne hx, List.count_cons, hx]
 
 /-- what `_state_pop` leaves in a generator: the pair on top of the stack -/
-def Gen.restore (c : Option V × Option Int) (s : List (Option V × Option Int)) (g : Gen V) : Gen V :=
+def Gen.restore (c : Option V × Option Int) (s : List (Option V × Option Int)) (g : Gen S V) : Gen S V :=
   { g with last := c.1, lastTime := c.2, saved := s }
 
 theorem popGens_get (c : Nat → Option V × Option Int) (s : Nat → List (Option V × Option Int)) :
-    ∀ (gs : List Nat) (hp : List (Gen V)),
+    ∀ (gs : List Nat) (hp : List (Gen S V)),
     (∀ x ∈ gs, ∀ y, hp[x]? = some y → y.saved = List.replicate (gs.count x) (c x) ++ s x) →
     (popGens gs hp).1 = .ok .unit ∧
     ∀ x, (popGens gs hp).2[x]? = if x ∈ gs then (hp[x]?).map (Gen.restore (c x) (s x)) else hp[x]?
@@ -467,16 +513,16 @@ def neutralOps : List Op → Bool
 end
 
 /-- same object graph, same saved stacks (the caches themselves may differ) -/
-def SameShape (w w' : World V) : Prop :=
+def SameShape (w w' : World S V) : Prop :=
   w'.defaults = w.defaults ∧ w'.insts = w.insts ∧
-  ∀ x : Nat, (w'.gens[x]?).map (fun g : Gen V => g.saved) = (w.gens[x]?).map (fun g : Gen V => g.saved)
+  ∀ x : Nat, (w'.gens[x]?).map (fun g : Gen S V => g.saved) = (w.gens[x]?).map (fun g : Gen S V => g.saved)
 
-theorem SameShape.refl (w : World V) : SameShape w w := ⟨rfl, rfl, fun _ => rfl⟩
+theorem SameShape.refl (w : World S V) : SameShape w w := ⟨rfl, rfl, fun _ => rfl⟩
 
-theorem SameShape.trans {a b c : World V} (h1 : SameShape a b) (h2 : SameShape b c) : SameShape a c :=
+theorem SameShape.trans {a b c : World S V} (h1 : SameShape a b) (h2 : SameShape b c) : SameShape a c :=
   ⟨h2.1.trans h1.1, h2.2.1.trans h1.2.1, fun x => (h2.2.2 x).trans (h1.2.2 x)⟩
 
-theorem readSlot_shape (env : Env H V) (w : World V) (tg : Target) (p : Nat) (f : Bool) :
+theorem readSlot_shape (env : Env H S V) (w : World S V) (tg : Target) (p : Nat) (f : Bool) :
     SameShape w (readSlot env w tg p f).2 := by
   unfold readSlot
   split
@@ -498,7 +544,7 @@ theorem readSlot_shape (env : Env H V) (w : World V) (tg : Target) (p : Nat) (f 
   · exact SameShape.refl w
 
 mutual
-theorem runOp_shape (env : Env H V) : ∀ (o : Op) (w : World V),
+theorem runOp_shape (env : Env H S V) : ∀ (o : Op) (w : World S V),
     neutralOp o = true → SameShape w (runOp env o w).2
   | .setTime _, w, _ => by simp only [runOp]; exact ⟨rfl, rfl, fun _ => rfl⟩
   | .advance _, w, _ => by simp only [runOp]; exact ⟨rfl, rfl, fun _ => rfl⟩
@@ -517,7 +563,7 @@ theorem runOp_shape (env : Env H V) : ∀ (o : Op) (w : World V),
     simp only [runOp]
     have f := exitCtx_frame (runOps env body { w with clock := w.clock.enter })
     exact ⟨f.2.2.1.trans ih.1, f.2.2.2.1.trans ih.2.1, fun x => by rw [f.2.1]; exact ih.2.2 x⟩
-theorem runOps_shape (env : Env H V) : ∀ (os : List Op) (w : World V),
+theorem runOps_shape (env : Env H S V) : ∀ (os : List Op) (w : World S V),
     neutralOps os = true → SameShape w (runOps env os w).2
   | [], w, _ => by simp only [runOps]; exact SameShape.refl w
   | o :: os, w, h => by
@@ -533,7 +579,7 @@ theorem runOps_shape (env : Env H V) : ∀ (os : List Op) (w : World V),
       exact h1
 end
 
-theorem instGens_shape {w w' : World V} (h : SameShape w w') (i : Nat) : instGens w' i = instGens w i := by
+theorem instGens_shape {w w' : World S V} (h : SameShape w w') (i : Nat) : instGens w' i = instGens w i := by
   simp only [instGens, resolve, h.1, h.2.1]
 
 /-! ### deleting inspections from a history -/
@@ -559,7 +605,7 @@ def stripOps : List Op → List Op
   | o :: os => stripOp o ++ stripOps os
 end
 
-theorem inspectSlot_ok_or_malformed (w : World V) (tg : Target) (p : Nat) :
+theorem inspectSlot_ok_or_malformed (w : World S V) (tg : Target) (p : Nat) :
     (∃ r, inspectSlot w tg p = .ok r) ∨ inspectSlot w tg p = .raised .malformed := by
   unfold inspectSlot
   split
@@ -570,7 +616,7 @@ theorem inspectSlot_ok_or_malformed (w : World V) (tg : Target) (p : Nat) :
   · exact Or.inr rfl
 
 mutual
-theorem strip_op (env : Env H V) : ∀ (o : Op) (rest : List Op) (w : World V),
+theorem strip_op (env : Env H S V) : ∀ (o : Op) (rest : List Op) (w : World S V),
     (runOp env o w).1 ≠ .raised .malformed →
     runOps env (stripOp o ++ rest) w = runOps env (o :: rest) w
   | .inspect tg p, rest, w, h => by
@@ -600,7 +646,7 @@ theorem strip_op (env : Env H V) : ∀ (o : Op) (rest : List Op) (w : World V),
   | .assign _ _ _, _, _, _ => rfl
   | .newInst, _, _, _ => rfl
   | .raise _, _, _, _ => rfl
-theorem strip_ops (env : Env H V) : ∀ (os : List Op) (w : World V),
+theorem strip_ops (env : Env H S V) : ∀ (os : List Op) (w : World S V),
     (runOps env os w).1 ≠ .raised .malformed →
     runOps env (stripOps os) w = runOps env os w
   | [], _, _ => rfl
